@@ -271,6 +271,15 @@ def gen_tree(rng, cfg=None):
                 e2['hashes'] = dis[:rng.choice([1, 2])]
                 e2['override'] = {e2['hashes'][0]: '0' * 8}
                 kind = 'wrong-disjoint'
+            elif cfg.get('p_conflict', 0.3) > 0 and e['hashes'] and rng.random() < 0.15:
+                # overlapping hash sets: one name shared - with the SAME wrong value in both entries - and one name each
+                # that only that entry has (right values): the shared one decides
+                sh = rng.choice(e['hashes'])
+                rest = [h for h in G.SUPPORTED_HASHES if h not in e['hashes']]
+                e2['hashes'] = [sh] + (rng.sample(rest, 1) if rest else [])
+                e['override'] = dict(e.get('override', {}), **{sh: '0' * 8})
+                e2['override'] = {sh: '0' * 8}
+                kind = 'overlap-wrong-shared'
             elif rng.random() < cfg.get('p_conflict', 0.3):
                 if rng.random() < 0.5 or not e2['hashes']:
                     e2['dsize'] = 1
